@@ -292,16 +292,38 @@ PROPS["C08"] = dict(
     undecided=["'every supported group with any shape starts from a valid state': Verus proves on the real PackedState::initialise / from_family / from_wyckoff that the initial parameters are in range (ratio 1, angle pi/2 or pi/3, positions -1/2+1/(2N), length 4RN >= 0.01 when R >= 0.0025/N); that the initial copies do not overlap (defined score) is NOT proved",
                ],
 )
+_CLI_ASSUMPTIONS = [
+    "cli unit: rayon's `(0..n).into_par_iter().map(f).map(g).map(h).max()` is read sequentially (rule R16: element-wise adapters, `max` = a greatest element by Ord::cmp); the scheduling itself is C09 (not applicable)",
+    "cli unit: optimise_state is seen through its contract only — result = opt_r(configuration as mathematical values, input), valid and with a score (unit opt: exit*.held); that it is a FUNCTION of configuration and input is the determinism ledger entry (seeded Pcg64Mcg stream, no other source of randomness or global state)",
+    "cli unit: frame of optimise_state (ax_opt_label) — the state is moved in and handed back and is reachable only through the &SharedValue cells of its basis, so group, shape and copies are unchanged",
+    "cli unit: serde_json::to_string / File::create+write_all / svg::save / info! are modelled as a ghost World (files written, scores logged); the JSON text records the state's group, shape and copies (ax_json_label: C11)",
+    "cli unit: contracts of get_wallpaper_group (Kani k_tables_label_<g>), from_group (unit state fg.*/init.* + C08) and the shape constructors (which shape the arguments denote) are taken as given at the entry point",
+    "cli unit: structopt argument parsing and #[paw::main] (how Args is filled from argv and how Err becomes a non-zero exit status) are library code",
+]
 PROPS["C10"] = dict(
-    level="other", units=["state", "opt"], kani=["k_tables_label_%s" % g for g in _GROUPS] + ["k_clone_cell", "k_clone_site"], lemmas=[],
-    explanation="Proved: the group lookup returns the requested group's own name, its ITA family and its full number of operations (Kani, complete; p1g1 was labelled p1m1 — defect D5, fixed); "
+    level="other", units=["state", "opt", "cli"], kani=["k_tables_label_%s" % g for g in _GROUPS] + ["k_clone_cell", "k_clone_site"], lemmas=[],
+    explanation="Proved on the real text of main.rs (unit cli): analyse_state returns Ok only after writing <outfile>.json = JSON of replica k and <outfile>.svg = SVG of the same replica k and logging that replica's score, "
+                "where k is a best one of the `start_configs` replicas (cli.best; replica i = the code's own stages, generated shape, applied to a copy of the starting state with seed i); zero replicas is an error (cli.empty); "
+                "more replications never score lower (lemma_more_replicas); main passes the requested replica count (main.replicas) and builds the starting state from the requested group, potential and shape arguments in the right order, "
+                "so the written JSON records the requested group, shape and the group's full number of copies (main.label, cli.label). The eight real BuildOptimiser setters are proved to set exactly their field (set.*). "
+                "Also: the group lookup returns the requested group's own name, its ITA family and its full number of operations (Kani, complete; p1g1 was labelled p1m1 — defect D5, fixed); "
                 "the order on states is the order on their scores and cmp is total when both have scores (Verus, real eq/partial_cmp/cmp); cloning a cell or site yields fresh cells (Kani, all bit patterns), "
-                "and the optimiser's random stream is a function of the given seed only (Verus: seed clause, build.seed), so a replica's result does not depend on the others and max over a longer prefix cannot be lower.",
-    assumptions=_STATE_ASSUMPTIONS + _OPT_ASSUMPTIONS[:2],
+                "and the optimiser's random stream is a function of the given seed only (Verus: seed clause, build.seed).",
+    assumptions=_STATE_ASSUMPTIONS + _OPT_ASSUMPTIONS[:2] + _CLI_ASSUMPTIONS,
     undecided=["PackedState::from_group is proved to record the group's family and to hold one site with one operation per table string (WyckoffSite::new's map/collect of Results is a shim: on success one operation per string)",
-               "main.rs (rayon `max()`, logging, file writing) is a parallel adapter chain in a binary crate behind #[paw::main]: not under contract — that the CLI really takes the maximum and writes that state is assumed",
+               "what a replica is (number of stages and their settings) is read off the code by vx/gen.py; a stage setting that is neither a literal nor the replica index (e.g. one depending on the replica count) is outside the generator's subset: undecided",
+               "PotentialState's eq/partial_cmp/cmp are not under contract (PackedState's are); the pipeline sees the order on states through the State contract",
                "derive(Clone) of PackedState/PotentialState composes the field clones (derive-generated code not verified)"],
 )
+
+# C20's sentence about the command line tool is decided in unit cli as well
+PROPS["C20"]["units"] = ["opt", "cli"]
+PROPS["C20"]["explanation"] += (" Unit cli (real main.rs): analyse_state and main have no reachable panic under the entry contract — Ord::cmp on states is only called on states that have a score "
+                                "(its unwrap cannot fail) — and they return Ok only after both output files were written (cli.best), Err for zero replicas (cli.empty) and for a polygon with the LJ potential (main.ljpoly).")
+PROPS["C20"]["assumptions"] = _OPT_ASSUMPTIONS + _CLI_ASSUMPTIONS
+PROPS["C20"]["undecided"] = ["how #[paw::main] turns Err into a message and a non-zero exit status, and structopt's argument errors, are library code",
+                             "that the starting state built by from_group is valid and has a score (precondition of the pipeline) is C08's last sentence: partly proved there",
+                             "the prefix statement (run with threshold = prefix of run without) is a two-run hyperproperty; it is argued from the frame of the convergence block, not proved (the native oracle optimiser_contract checks it on sampled runs in the thorough tier)"]
 
 # ---------------------------------------------------------------- C11, C17
 KANI["k_serde_f64"] = dict(props=["C11"], kind="complete", fn="basis.rs impl Serialize/Deserialize for SharedValue, F64Visitor",
